@@ -125,10 +125,14 @@ def splitDot : Bytes → List Bytes
       | [] => [[c]]          -- unreachable: splitDot is never empty
       | h :: t => (c :: h) :: t
 
-/-- the store's `mapSymbols` keys and `publicSymbols` keys -/
+/-- the store's `mapSymbols` keys and `publicSymbols` keys, and the same two key sets of each store up
+    its `parent` chain (nearest first; empty for a store without `StoreDefinition.Parent`).  A child store
+    has its own `publicSymbols` / `mapSymbols` maps: `GrantSymbols` copies the parent's symbols into them
+    once, later `MakeSymbolPublic` calls on either store change only that store's set. -/
 structure PubCfg where
   maps : List Bytes
   pub : List Bytes
+  parents : List (List Bytes × List Bytes) := []
 
 /-- BaseStore.IsPublicSymbol -/
 def isPublicSymbol (c : PubCfg) (s : Bytes) : Bool :=
